@@ -64,3 +64,13 @@ Example ex_C20_longer_last_not_fixed :
   valid_blocks_b [[(0,0,10);(0,10,20);(0,20,35)]] = true /\
   get_binsize (concat [[(0,0,10);(0,10,20);(0,20,35)]]) = None.
 Proof. vm_compute. split; reflexivity. Qed.
+
+(** binnify computes the number of bins with float64 true division, [int(np.ceil(clen / binsize))]; for lengths and bin
+    sizes below 2^53 that is the exact ceiling division the model uses (Proofs/FloatDiv.v, Flocq: [fdiv] is the
+    correctly rounded binary64 quotient).  Depends on the standard library's real-number axioms only. *)
+From Cooler Require Import Proofs.FloatDiv Proofs.FloatDivBridge.
+From Flocq Require Import Core.
+Theorem C20_binary64_bin_count_exact : forall clen b : Z,
+  0 <= clen < 2^53 -> 0 < b < 2^53 -> Zceil (fdiv clen b) = cdiv clen b.
+Proof. exact ceil_fdiv_is_cdiv. Qed.
+Print Assumptions C20_binary64_bin_count_exact.
